@@ -17,13 +17,17 @@ ASSUMPTIONS = ['bodies are deterministic', 'one accumulator type', 'no eviction 
 
 def ties(ctx):
     n = 6000 if ctx.tier == 'quick' else 150000
-    return [run_seq(ctx, 'acc', n, model='coreacc', corpus='COREACC')]
+    # `full`: accumulated(q) requests on programs with lru / untracked / struct-creating nodes (outside the CoreAcc model:
+    # decided by the oracle = preorder DFS of the reference interpreter), e.g. an EVICTED accumulating memo that is only verified
+    m = 6000 if ctx.tier == 'quick' else 150000
+    return [run_seq(ctx, 'acc', n, model='coreacc', corpus='COREACC'), run_seq(ctx, 'full', m, seed_offset=11, tag='full-acc')]
 
 def search(ctx, reason):
-    t = run_seq(ctx, 'acc', 300000, seed_offset=78, tag='search-acc')
-    for f in t.failures:
-        if f.kind == 'oracle' and f.key not in listed_keys():
-            return f
+    for prof, k in (('acc', 300000), ('full', 300000)):
+        t = run_seq(ctx, prof, k, seed_offset=78, tag='search-' + prof)
+        for f in t.failures:
+            if f.kind == 'oracle' and f.key not in listed_keys():
+                return f
     return None
 
 def replay(ctx, path):
